@@ -21,7 +21,7 @@ def run(ctx):
         states += r3.distinct
         trans += r3.generated
     # 2. spec -> code: transition tour of core2 replayed on the real server
-    paths, cov, total, _ = srvfam.behaviours_tour(ctx, c2, "core2", sample_edges=8000 if q else None)
+    paths, cov, total, _ = srvfam.behaviours_tour(ctx, c2, "core2", sample_edges=6000 if q else None, known_size=r2)
     rep, tpath, epath, bpath = srvfam.replay(ctx, paths, c2, "core2")
     rejects, tlines = srvfam.run_trace_validation(ctx, tpath, c2)
     verdicts, elines = srvfam.run_monitor(ctx, epath)
